@@ -131,6 +131,19 @@ def abs_case(case):
     return files, fs
 
 
+class RealMissFS(impl.FakeFS):
+    """FakeFS, except that a path it does not know goes to the real open(): under the non-existent directory
+    ROOT that is FileNotFoundError for ordinary names, and whatever the OS / CPython really raise for names with
+    NUL characters, lone surrogates, over-long components ... (part of what the assembler must survive)."""
+
+    def open(self, path, mode="r", *a, **k):
+        key = path if path in self.files else os.path.normpath(path)
+        if key in self.files:
+            return impl.FakeFS.open(self, path, mode, *a, **k)
+        import builtins
+        return builtins.open(path, mode, *a, **k)
+
+
 def sig_of(kind, crash):
     return f"{kind}:{crash.get('exc')}@{crash.get('frame')}"
 
@@ -164,7 +177,7 @@ def run_cli_inproc(files, fs, charset, fmt, extra_argv, watchdog):
     allfs = dict(fs)
     for fn, t in files:
         allfs[fn] = t
-    fake = impl.FakeFS(allfs)
+    fake = RealMissFS(allfs)
     written = []
 
     def sink_open(path, mode="rb", data_format=None):
@@ -242,7 +255,12 @@ def judge(case, watchdog=None, cli=True):
     res = {"p1": None, "ood": None, "verdicts": [], "diag_ids": [], "exits": []}
     V = res["verdicts"]
     try:
-        r = impl.assemble(files, charset=charset, fs=fs, watchdog=watchdog)
+        saved_fs = impl.FakeFS
+        impl.FakeFS = RealMissFS        # impl.assemble builds its file system from this name
+        try:
+            r = impl.assemble(files, charset=charset, fs=fs, watchdog=watchdog)
+        finally:
+            impl.FakeFS = saved_fs
     except WorkLimit as w:
         res["p1"] = "out-of-domain"
         res["ood"] = str(w)
